@@ -82,6 +82,8 @@ pub struct Interp<'a> {
     out: Outcome,
     key_map: HashMap<(Vec<u8>, usize), u32>,
     balanced_run: Vec<u32>,
+    /// balanced sends refused with topic-full since the last balanced send that landed
+    refused_balanced: u32,
     step: usize,
     /// payloads >= 8 bytes sent while encryption was on (C19 scan)
     enc_payloads: Vec<Vec<u8>>,
@@ -133,6 +135,7 @@ impl<'a> Interp<'a> {
             out: Outcome::default(),
             key_map: HashMap::new(),
             balanced_run: vec![],
+            refused_balanced: 0,
             step: 0,
             enc_payloads: vec![],
             wrong_key: false,
@@ -185,10 +188,14 @@ impl<'a> Interp<'a> {
         let deadline = std::time::Instant::now() + std::time::Duration::from_secs(secs);
         loop {
             let mut settled = true;
-            for pid in 1..=self.parts.len() as u32 {
-                for s in self.observe(pid) {
+            let mut targets: Vec<(u32, u32)> = (1..=self.parts.len() as u32).map(|p| (TOPIC, p)).collect();
+            if self.case.sibling_segs > 0 {
+                targets.push((TOPIC + 1, 1));
+            }
+            for (topic, pid) in targets {
+                for s in self.observe_topic(topic, pid) {
                     let want = s.size.saturating_sub(s.unsaved_bytes);
-                    let f = self.dir.path.join(format!("streams/1/topics/1/partitions/{pid}/{:020}.log", s.start));
+                    let f = self.dir.path.join(format!("streams/1/topics/{topic}/partitions/{pid}/{:020}.log", s.start));
                     let have = std::fs::metadata(&f).map(|m| m.len()).unwrap_or(0);
                     if have < want {
                         settled = false;
@@ -294,12 +301,16 @@ impl<'a> Interp<'a> {
     // ------------------------------------------------------------ observation (2.6)
 
     fn observe(&self, pid: u32) -> Vec<SegObs> {
+        self.observe_topic(TOPIC, pid)
+    }
+
+    fn observe_topic(&self, topic_id: u32, pid: u32) -> Vec<SegObs> {
         let n = self.node();
         n.block_on(async {
             let sys = n.system.read().await;
             let mut v = vec![];
             if let Ok(stream) = sys.get_stream(&sid()) {
-                if let Ok(topic) = stream.get_topic(&tid()) {
+                if let Ok(topic) = stream.get_topic(&Identifier::numeric(topic_id).unwrap()) {
                     if let Ok(part) = topic.get_partition(pid) {
                         let part = part.read().await;
                         for s in part.get_segments() {
